@@ -110,6 +110,9 @@ func (g Generator) Generate(openapi3Spec *openapi3.Swagger, outDir string, packa
 		basePath = u.Path
 	}
 
+	// a trailing slash on the base path is insignificant ("/v1/" == "/v1", "/" == "")
+	basePath = strings.TrimSuffix(basePath, "/")
+
 	gen, err := generator.NewGenerator(s,
 		cfg,
 		generator.PackageName(packageName),
